@@ -490,3 +490,57 @@ def eval_net_mv(net, assign, nlanes, four=False, force=None):
         else:
             val['~' + g['name']] = v
     return val
+
+
+# ------------------------------------------------------------------------------------------------
+# line-level reference evaluation over the built circuit graph (used where single lines are forced, C16)
+
+def eval_lines(b, net, assign, nlanes, mode='bool', strip_forks=False, force=None):
+    """-> {line index: value}; value = lane bitset (mode 'bool') or list of codes (mode 'mv4'/'mv8').
+    assign is keyed by source name (input signal / state element name).  force = {line index: value}: that line is
+    driven with the given value instead of its computed one."""
+    from . import wave as W
+    from . import ref_mv as R
+    force = force or {}
+    mask = (1 << nlanes) - 1
+    gates = {g['name']: g for g in net['gates']}
+    order, deps = W.line_deps(b.c, strip_forks=strip_forks)
+    lines = b.c.lines
+    val = {}
+    if mode == 'bool':
+        zero = 0
+        inv = lambda v: ~v & mask
+    else:
+        zero = [R.ZERO] * nlanes
+        inv = lambda v: [R.v_not(x) for x in v]
+    for li in order:
+        d = deps[li]
+        if d[0] == 'src':
+            kind, name = b.s_order[d[1]]
+            v = assign[name]
+            v = (v & mask) if mode == 'bool' else list(v)
+            if d[2]:
+                v = inv(v)
+        elif d[0] == 'alias':
+            v = val[d[1]]
+        else:
+            n = lines[li].driver
+            if n.kind == '__fork__':
+                v = val[d[1][0]] if d[1] else zero
+            else:
+                g = gates[n.name]
+                prim, _ = canonical(g['fam'], g['ins'])
+                ar = FUNCS[prim][0]
+                pins = (list(n.ins) + [None] * 4)[:ar]
+                ops = [val[l.index] if l is not None else zero for l in pins]
+                if mode == 'bool':
+                    v = FUNCS[prim][1](mask, *ops) & mask
+                else:
+                    f = R.PRIM[prim]
+                    v = [f(*t) for t in zip(*ops)] if ops else [f() for _ in range(nlanes)]
+                    if mode == 'mv4':
+                        v = [x & 3 for x in v]
+        if li in force:
+            v = force[li]
+        val[li] = v
+    return val
